@@ -233,6 +233,7 @@ def lean_check(pid: str, thorough: bool = False, own_tables: bool = False):
         if good.exists():
             mine = aud / f"skcdriver.run{os.getpid()}"
             shutil.copy2(good, mine)
+            os.utime(mine)  # copy2 keeps the source's mtime: without this a concurrent run would take a fresh copy for a stale one
             res["driver_path"] = str(mine)
         if rc != 0:
             return res
